@@ -6,13 +6,15 @@ Import ListNotations.
 Inductive impl_out := IOk (r : list Q) | IValueErr | IOtherErr.
 
 Record case1 := { k_m : pmode; k_d : direction; k_c : Q; k_cast : bool;
-                  k_arr : list Q; k_nout : nat; k_off : Z; k_out : impl_out }.
+                  k_arr : list Q; k_nout : nat; k_off : Z; k_out : impl_out;
+                  k_kept : bool   (* the caller's input is bitwise unchanged and a second call agrees *) }.
 
 Definition Qs_eq := Qsclose 0 0.
 
 (* model = implementation (outputs exactly, errors as an enum); and, on the
    inputs the theorems speak about, model = index-formula reference *)
 Definition check1 (k : case1) : bool :=
+  k_kept k &&
   let r := resize1 (k_m k) (k_d k) (k_c k) (k_cast k) (k_arr k) (k_nout k) (k_off k) in
   match r, k_out k with
   | Ok r, IOk r' => Qs_eq r' r
@@ -33,12 +35,13 @@ Definition check1 (k : case1) : bool :=
 From Verif Require Import Lib.Axis C16.ModelNd.
 Record caseN := { n_m : pmode; n_d : direction; n_c : Q; n_cast : bool;
                   n_ishape : list nat; n_arr : list Q; n_oshape : list nat; n_offs : list Z;
-                  n_out : impl_out }.
+                  n_out : impl_out; n_kept : bool }.
 
 (* (1) the in-place N-d model = implementation (outputs exactly, errors as enum);
    (2) on admissible configurations the separable composition of 1-d resizes
        gives the same array *)
 Definition checkN (k : caseN) : bool :=
+  n_kept k &&
   let r := resizeN (n_m k) (n_d k) (n_c k) (n_cast k) (n_ishape k) (n_arr k) (n_oshape k) (n_offs k) in
   match r, n_out k with
   | Ok r, IOk r' => Qs_eq r' r
@@ -59,13 +62,19 @@ Definition checkN (k : caseN) : bool :=
       else true).
 
 (* ---- ResizingOperator: range construction, offset, call / adjoint / inverse ---- *)
-From Verif Require Import Gen.ResizeDiscr C16.ModelOp.
+From Verif Require Import Base.Vec Gen.ResizeDiscr C16.ModelOp.
 Record caseOp := { o_adjguard : bool; o_m : pmode; o_c : Q;
                    o_dom : list (Q * Q * Z * (bool * bool));        (* min, max, n, nodes_on_bdry *)
                    o_nnew : list Z; o_off : list (option Z); o_flags : list (bool * bool);
                    o_rmin : list Q; o_rmax : list Q; o_rcs : list Q; o_offset : list Z;
                    o_islinear : bool; o_axes : list nat;
-                   o_x : list Q; o_fx : impl_out; o_y : list Q; o_ay : impl_out; o_inv : impl_out }.
+                   o_x : list Q; o_fx : impl_out; o_y : list Q; o_ay : impl_out; o_inv : impl_out;
+                   (* attributes of the inferred range: weighting constant, exponent, dtype tag;
+                      domain value, value in discr_kwargs (if any), observed range value *)
+                   o_w : Q * option Q * Q; o_exp : Q * option Q * Q; o_dtype : nat * option nat * nat;
+                   (* <op x, y>_range and <x, op.adjoint y>_domain as computed by the library (when defined) *)
+                   o_inner : option (Q * Q);
+                   o_kept : bool   (* x and y bitwise unchanged by op(x), op.adjoint(y) (called twice) *) }.
 
 Definition mk_axis (d : Q * Q * Z * (bool * bool)) : @axis Q :=
   let '(mn, mx, n, (bl, br)) := d in {| a_min := mn; a_max := mx; a_n := n; a_bl := bl; a_br := br |}.
@@ -116,4 +125,17 @@ Definition checkOp (k : caseOp) : bool :=
   && match o_fx k with
      | IOk fx => out_eq (resizeN (o_m k) Forward (o_c k) true osh fx ish offs) (o_inv k)
      | _ => true
+     end
+  && o_kept k
+  && (let '(dw, kw, rw) := o_w k in Qeq_bool rw (range_attr kw dw))
+  && (let '(de, ke, re) := o_exp k in Qeq_bool re (range_attr ke de))
+  && (let '(dd, kd, rd) := o_dtype k in Nat.eqb rd (range_attr kd dd))
+  && match o_inner k, resizeN (o_m k) Forward (o_c k) true ish (o_x k) osh offs,
+           resizeN (o_m k) Adjoint 0 true osh (o_y k) ish offs with
+     | Some (ir, id), Ok fx, Ok ay =>
+         let '(dw, _, rw) := o_w k in
+         Qclose optol 0 ir (rw * dot fx (o_y k)) && Qclose optol 0 id (dw * dot (o_x k) ay)
+         && (negb (Qeq_bool dw rw) || Qclose optol 0 ir id)
+     | Some _, _, _ => false
+     | None, _, _ => true
      end.
